@@ -23,6 +23,10 @@ CFGS = {
               Types="AllTypes", lenMode="edges", ws=False),
     "F": dict(RtmpSubs=["r1"], FlvSubs=[], PushSubs=["t1", "t2"], GopNumR=0, GopNumF=0, CapR=0, CapF=0, Mw=5, Sz=[1, 4], Record=False,
               Types="Core", lenMode="units", ws=False),
+    # the RTMP server switched off (rtmp.enable = rtmps_enable = false): an RTSP publisher, an HTTP-FLV consumer and a relay
+    # push target, which is an RTMP consumer all the same and gets its prologue from the RTMP cache
+    "En": dict(RtmpSubs=[], FlvSubs=["f1"], PushSubs=["t1"], GopNumR=1, GopNumF=1, CapR=0, CapF=0, Mw=0, Sz=[1], Record=False,
+               Types="AllTypes", lenMode="edges", ws=False, rtmpOff=True),
     "D": dict(RtmpSubs=["r1", "r2"], FlvSubs=["f1"], GopNumR=2, GopNumF=1, CapR=2, CapF=1, Mw=6, Sz=[1, 4], Record=True,
               Types="AllTypes", lenMode="units", ws=False),
 }
@@ -76,7 +80,8 @@ def drv_cfg(cid):
     c = CFGS[cid]
     return {"rtmpSubs": c["RtmpSubs"], "flvSubs": c["FlvSubs"], "gopNumR": c["GopNumR"], "gopNumF": c["GopNumF"],
             "capR": c["CapR"], "capF": c["CapF"], "mwBytes": c["Mw"] * 1000, "record": c["Record"], "ws": c["ws"],
-            "lenMode": c["lenMode"], "pushSubs": c.get("PushSubs", []), "httpsOnly": c.get("httpsOnly", False)}
+            "lenMode": c["lenMode"], "pushSubs": c.get("PushSubs", []), "httpsOnly": c.get("httpsOnly", False),
+            "rtmpOff": c.get("rtmpOff", False)}
 
 
 def behaviours(res):
